@@ -25,6 +25,13 @@ def workdir():
     return _WORKDIR[pid]
 
 
+def cleanup():
+    """Remove this process's scratch directory (pool workers do not run atexit handlers)."""
+    d = _WORKDIR.pop(os.getpid(), None)
+    if d:
+        shutil.rmtree(d, True)
+
+
 def write_instance(text, name='inst.txt'):
     path = os.path.join(workdir(), name)
     with open(path, 'w') as f:
